@@ -156,6 +156,11 @@ def variants(t):
         ("non-convex-guard", {"guard2": B("OR_KW", B("GE", ID("lclk"), I(1)), B("GE", ID("gclk"), I(1)))}, {}),
         ("write-to-constant", {"asg3a": B("ASSIGN", ID("N"), I(0))}, {}),
         ("array-size-not-computable", {"garr_sz": B("PLUS", ID("gcnt"), I(1))}, {}),
+        # the same message more than once, for an expression and for the expression it starts (their ranges share the start
+        # unless a redundant pair of parentheses moves it)
+        ("same-message-twice:no-effect", {"asg1a": B("EQ", ID("gcnt"), I(1)), "asg1b": B("EQ", ID("gflag"), ID("gflag"))}, {}),
+        ("same-message-twice:not-a-structure", {"guard1": B("GE", ("DOT", ("DOT", ID("gcnt"), "fa", 0), "fb", 0), I(0))}, {}),
+        ("same-message-twice:unknown-identifier", {"guard1": B("AND", B("GE", ID("nosuch"), I(0)), B("GE", B("PLUS", ID("nosuch"), ID("nosuch")), I(0)))}, {}),
         ("syntax-error-in-label", {}, {"assign2": "gpair.fb = ( gflag"}),
         ("syntax-error-in-declaration", {}, {"t1decl": "clock lclk;\nint lcnt = ;\nint later;"}),
     ]
